@@ -26,6 +26,7 @@ import (
 	"gverif/engine/sibx"
 	"gverif/engine/stride"
 	"gverif/engine/twin"
+	"gverif/engine/worksize"
 )
 
 // A canary is a one-line in-memory mutation of the analysed tree (a
@@ -47,8 +48,8 @@ var canaries = map[string][]canary{}
 // after the property's own analysis.
 var propertyCanaries = map[string][]string{
 	"C01": {"STRIDE.index", "STRIDE.len", "STRIDE.start", "STRIDE.rowoffset", "STRIDE.extent", "FLAG.trans", "TWIN.generated", "ASM.units"},
-	"C02": {"ARGS.order", "ARGS.lencheck", "ARGS.query", "LOOPIDX.unused", "OKFLOW.report", "STRIDE.vecinc"},
-	"C03": {"ARGS.order", "ARGS.lencheck", "ARGS.query", "LOOPIDX.unused", "OKFLOW.report", "STRIDE.workld", "STRIDE.worknext"},
+	"C02": {"ARGS.order", "ARGS.lencheck", "ARGS.query", "LOOPIDX.unused", "OKFLOW.report", "STRIDE.vecinc", "WORKSIZE.min"},
+	"C03": {"ARGS.order", "ARGS.lencheck", "ARGS.query", "LOOPIDX.unused", "OKFLOW.report", "STRIDE.workld", "STRIDE.worknext", "WORKSIZE.min"},
 	"C04": {"STRIDE.contig", "TWIN.bounds", "NILRECV"},
 	"C05": {"OVERLAP.guard", "MODSET.mat", "OVERLAP.symmetric", "TWIN.shadow"},
 	"C06": {"OKFLOW.use", "OKFLOW.cond", "OKFLOW.report", "FACT.normorder", "FACT.state", "NILRECV"},
@@ -66,7 +67,10 @@ func init() {
 	blas := func() *core.Result { return stride.Run(def, core.Pkgs("./blas/gonum")) }
 	lap := func() *core.Result { return stride.Run(def, core.Pkgs("./lapack/gonum")) }
 	matS := func() *core.Result { return stride.Run(def, core.Pkgs("./mat")) }
+	wsz := func() *core.Result { return worksize.Run(def, core.Pkgs("./lapack/gonum"), worksizeExempt) }
 	all := []canary{
+		{"WORKSIZE.min", "lapack/gonum/dgels.go", "wsize := max(1, mn+max(mn, nrhs)*nb)", "wsize := max(1, mn+mn*nb)", wsz},
+		{"WORKSIZE.min", "lapack/gonum/dsyev.go", "lworkopt := max(1, (nb+2)*n)", "lworkopt := max(1, (nb+1)*n)", wsz},
 		{"STRIDE.index", "blas/gonum/level2float64.go", "jy := ky + (i+1)*incY", "jy := ky + (i+1)*incX", blas},
 		{"STRIDE.len", "blas/gonum/level2float64.go", "(incY < 0 && len(y) <= (1-n)*incY)", "(incY < 0 && len(y) <= (1-n)*incX)", blas},
 		{"STRIDE.start", "blas/gonum/level2float64.go", "jy := ky + (i+1)*incY", "jy := (i + 1) * incY", blas},
